@@ -612,3 +612,19 @@ def checked_sub_some(a, facts, idx):
             vs = result_err_variants(facts, tt)
             errs.append(sorted(vs))
     return c[2][0], c[2][1], cbi, errs
+
+
+_PRIM_SIZE = {'u8': 1, 'i8': 1, 'u16': 2, 'i16': 2, 'u32': 4, 'i32': 4, 'u64': 8, 'i64': 8, 'u128': 16, 'i128': 16, 'usize': 8, 'isize': 8}
+
+
+def size_of_term(facts, t):
+    """value of a `core::mem::size_of::<T>()` term for a primitive integer T or a single-field struct around one"""
+    if not (t[0] == 'call' and t[1] == 'core::mem::size_of' and len(t) > 4 and t[4] and len(t[4][4]) == 1):
+        return None
+    ty = t[4][4][0]
+    if ty in _PRIM_SIZE:
+        return _PRIM_SIZE[ty]
+    adt = facts.adts.get(ty)
+    if adt and adt.get('kind') == 'Struct' and len(adt['variants']) == 1 and len(adt['variants'][0]['fields']) == 1:
+        return _PRIM_SIZE.get(adt['variants'][0]['fields'][0]['ty'])
+    return None
